@@ -387,6 +387,11 @@ class Check:
         lines = []
         for cls, what in self.known_hits:
             lines.append("KNOWN-FINDING: property=%s %s" % (self.prop, what))
+        # timing-dependent open findings are listed on every run of their property's check, hit or not
+        for k in self.known:
+            if k.get("property") == self.prop and k.get("status") == "open" and str(k.get("report", "")).startswith("always") \
+                    and k.get("class") not in [c for c, _ in self.known_hits]:
+                lines.append("KNOWN-FINDING: property=%s %s" % (self.prop, k.get("what", "")))
         if self.monitor_failures or self.disagreements or self.broken:
             violations = max(1, len(self.monitor_failures))
             os.makedirs(os.path.join(VERIF, "replay"), exist_ok=True)
